@@ -87,8 +87,16 @@ func (c *CaseSpec) trigger() (string, uint16) { return c.kind().Trigger(c.Varian
 
 func genCase(r *vlib.Run, index int) *CaseSpec {
 	rng := r.RandN("case", index)
-	k := kinds[index%len(kinds)]
-	round := index / len(kinds)
+	k := kinds[index%nBaseKinds]
+	round := index / nBaseKinds
+	if index >= extraIndexBase {
+		// kinds added after the first registrations live in their own index
+		// space, so that the cases of the older kinds stay what they were
+		j := index - extraIndexBase
+		nx := len(kinds) - nBaseKinds
+		k = kinds[nBaseKinds+j%nx]
+		round = j / nx
+	}
 	off := r.Rand("variant-offset/" + k.Name).IntN(len(k.Variants))
 	variant := k.Variants[(round+off)%len(k.Variants)]
 	needV6 := k.NeedV6 != nil && k.NeedV6(variant)
@@ -120,6 +128,19 @@ func (k *attackKind) shapeWorld(variant string, ws *WorldSpec) {
 			ws.QMin = v
 		}
 	}
+}
+
+// extraIndexBase is the first case index of the kinds appended to the base list
+// (kinds[nBaseKinds:]).
+const extraIndexBase = 1 << 20
+
+// slotIndex maps the s-th case of a run with the given number of rounds to
+// its case index.
+func slotIndex(s, rounds int) int {
+	if nOld := rounds * nBaseKinds; s >= nOld {
+		return extraIndexBase + (s - nOld)
+	}
+	return s
 }
 
 type question struct {
@@ -709,7 +730,7 @@ func main() {
 		var lo, hi, step int
 		fmt.Sscanf(b, "%d:%d:%d", &lo, &hi, &step)
 		for i := lo; i < hi; i += step {
-			runCase(r, genCase(r, i))
+			runCase(r, genCase(r, slotIndex(i, rounds)))
 		}
 		r.Finish(rule)
 		return
@@ -780,6 +801,20 @@ func main() {
 	r.Require("deep_resolutions_started_at_cached_cut", int64(rounds/2))
 	r.Require("deep_jumps_to_cached_delegation", int64(rounds/2))
 	r.Require("deep_jumps_of_two_labels", int64(rounds/3))
+	// spoof bursts: every length band on both transports; wrong-id bursts of every
+	// band that the resolver read past to serve the real reply queued behind
+	// them; bursts that nothing followed
+	for _, b := range burstBands {
+		r.Require("spoof_burst_skipped_then_real_reply_served/"+bandName(b[0]), int64(rounds/6))
+		r.Require("spoof_burst_rungs_by_length/udp/"+bandName(b[0]), int64(rounds/2))
+		r.Require("spoof_burst_rungs_by_length/tcp/"+bandName(b[0]), int64(rounds/3))
+	}
+	r.Require("spoof_burst_rungs/udp/id/silent", int64(rounds/3))
+	r.Require("spoof_burst_rungs/udp/mixed/silent", int64(rounds/3))
+	r.Require("spoof_burst_rungs/udp/mixed/real", int64(rounds/3))
+	r.Require("spoof_burst_rungs/udp/question/real", int64(rounds/3))
+	r.Require("spoof_burst_rungs/tcp/id/real", int64(rounds/3))
+	r.Require("spoof_burst_rungs/tcp/id/silent", int64(rounds/3))
 	// this host's own interface addresses as glue / resolved NS addresses
 	if len(allLocalInterfaceAddrs()) > 0 {
 		r.Require("local_interface_glue_cases", 1)
